@@ -308,7 +308,7 @@ impl Circuit {
         };
 
         // Parse output line
-        let (mut output_gates, num_output_wires) = {
+        let num_output_wires = {
             let (parts, line_str) = parse_line(lines.next())?;
             if parts.len() < 2 {
                 return Err(FromBristolError::MalformedLine(line_str));
@@ -328,14 +328,19 @@ impl Circuit {
             if num_output_wires > wires_num {
                 return Err(FromBristolError::MalformedLine(line_str));
             }
-            (vec![0; num_output_wires], num_output_wires)
+            num_output_wires
         };
+        let first_output_wire = wires_num - num_output_wires;
 
         // Create the wires map to map the wires in the Bristol format to the wires in the Garble format.
-        let mut wires_map = vec![0; wires_num];
-        for (i, wire) in wires_map.iter_mut().take(input_wires_num).enumerate() {
-            *wire = i;
-        }
+        // Only the wires assigned by gates are stored, so that nothing is allocated based on the (unchecked)
+        // counts of the header: an input wire that no gate assigns maps to itself, all other wires to 0.
+        let mut wires_map: HashMap<usize, usize> = HashMap::new();
+        let wire_of = |wires_map: &HashMap<usize, usize>, w: usize| match wires_map.get(&w) {
+            Some(&wire) => wire,
+            None if w < input_wires_num => w,
+            None => 0,
+        };
         let mut next_wire = input_wires_num;
 
         // Parse gates
@@ -368,13 +373,7 @@ impl Circuit {
 
             let gate_type = parts.last().ok_or(FromBristolError::MissingGateType)?;
 
-            // Check if the output wire is an output gate
-
-            if output_wire >= wires_num - num_output_wires {
-                output_gates[output_wire - (wires_num - num_output_wires)] = next_wire;
-            }
-
-            wires_map[output_wire] = next_wire;
+            wires_map.insert(output_wire, next_wire);
             // Each gate defines a new wire, whose index must still be a usize.
             let Some(following_wire) = next_wire.checked_add(1) else {
                 return Err(FromBristolError::InvalidWireIndex(next_wire));
@@ -387,22 +386,37 @@ impl Circuit {
                         return Err(FromBristolError::MalformedLine(line_str));
                     }
                     if *gate_type == "XOR" {
-                        Gate::Xor(wires_map[input_wires[0]], wires_map[input_wires[1]])
+                        Gate::Xor(
+                            wire_of(&wires_map, input_wires[0]),
+                            wire_of(&wires_map, input_wires[1]),
+                        )
                     } else {
-                        Gate::And(wires_map[input_wires[0]], wires_map[input_wires[1]])
+                        Gate::And(
+                            wire_of(&wires_map, input_wires[0]),
+                            wire_of(&wires_map, input_wires[1]),
+                        )
                     }
                 }
                 "INV" => {
                     if input_wires.len() != 1 {
                         return Err(FromBristolError::MalformedLine(line_str));
                     }
-                    Gate::Not(wires_map[input_wires[0]])
+                    Gate::Not(wire_of(&wires_map, input_wires[0]))
                 }
                 _ => {
                     return Err(FromBristolError::UnknownGate(gate_type.to_string()));
                 }
             };
             gates.push(gate);
+        }
+
+        // The outputs are the last wires in order; each of them must have been assigned by a gate.
+        let mut output_gates = Vec::new();
+        for w in first_output_wire..wires_num {
+            match wires_map.get(&w) {
+                Some(&wire) => output_gates.push(wire),
+                None => return Err(FromBristolError::InvalidWireIndex(w)),
+            }
         }
 
         Ok(Circuit {
